@@ -182,6 +182,9 @@ pub fn fixed_probe_seconds() -> Vec<i128> {
         ntp(1959, 6, 1) as i128,
         ntp(2100, 1, 1) as i128,
         ntp(9999, 12, 31) as i128,
+        // far outside the calendar the formatting code supports, well inside Duration's range
+        -200_000_000_000, // about 4400 BC
+        900_000_000_000,  // about AD 30400
     ];
     for y in 1960..=1971 {
         v.push(ntp(y, 1, 1) as i128);
@@ -585,6 +588,8 @@ pub fn conv_full_sweep(shipped: &[Entry], fixed: &[i128], known: Known, st: &mut
         if let Some(p) = prev_t {
             utc.push((p + t) / 2);
             utc.push((p + t) / 2 + 1);
+            utc.push(p + (t - p) / 4 + 250_000_001);
+            utc.push(p + (t - p) / 4 * 3 + 999_999_999);
         }
         prev_t = Some(t);
         for k in -3i128..=(dat as i128 + 3) {
@@ -603,7 +608,35 @@ pub fn conv_full_sweep(shipped: &[Entry], fixed: &[i128], known: Known, st: &mut
         tai.push(s * NS_PER_S);
     }
     conv_scan_utc(&mut utc, shipped, known, st)?;
-    conv_scan_tai(&mut tai, shipped, known, st)
+    conv_scan_tai(&mut tai, shipped, known, st)?;
+    // Reaching UTC from another uniform scale is reaching it from TAI: same instant, same answer.
+    for &(ts, dat) in shipped {
+        for k in [-41i128, -1, 0, 1, dat as i128, dat as i128 + 1, 86_400 * 45] {
+            let a = tai_epoch_ns((ts as i128 + k) * NS_PER_S + 250_000_000);
+            let direct = a.to_time_scale(TimeScale::UTC);
+            for scale in [TimeScale::TT, TimeScale::GPST, TimeScale::GST, TimeScale::BDT, TimeScale::QZSST] {
+                st.tai_probes += 1;
+                let via = a.to_time_scale(scale).to_time_scale(TimeScale::UTC);
+                if via.duration != direct.duration || via.time_scale != TimeScale::UTC {
+                    return Err(format!(
+                        "TAI count {} s + 0.25 s: converting to UTC through {scale:?} gives {:?}, directly gives {:?}",
+                        ts as i128 + k,
+                        via.duration.to_parts(),
+                        direct.duration.to_parts()
+                    ));
+                }
+                let back = direct.to_time_scale(scale).to_time_scale(TimeScale::TAI);
+                let want = direct.to_time_scale(TimeScale::TAI);
+                if back.duration != want.duration {
+                    return Err(format!(
+                        "UTC -> {scale:?} -> TAI differs from UTC -> TAI at UTC parts {:?}",
+                        direct.duration.to_parts()
+                    ));
+                }
+            }
+        }
+    }
+    Ok(())
 }
 
 /// The light, seeded form evaluated at every Query.
